@@ -65,6 +65,28 @@ func (c *Client) drain(r *Reaction) {
 			return
 		}
 		r.Packets = append(r.Packets, p)
+		c.track(p)
+	}
+}
+
+// track follows the two server packets that change how the stream must be read: in the login state
+// SetCompression switches framing, LoginSuccess ends the login state (the label becomes "play" before
+// 1.20.2; from 1.20.2 on the client stays in "login-success" until it sends LoginAcknowledged).
+func (c *Client) track(p Packet) {
+	if c.State != "login" {
+		return
+	}
+	switch p.ID {
+	case IDSetCompression:
+		if t, err := ParseSetCompression(p.Body); err == nil {
+			c.SetCompression(t)
+		}
+	case IDLoginSuccess:
+		if c.Protocol >= P1_20_2 {
+			c.State = "login-success"
+		} else {
+			c.State = "play"
+		}
 	}
 }
 
